@@ -369,6 +369,106 @@ def gen_c05(tier, seed):
     return scens
 
 
+# ------------------------------------------------------------------------------------------
+# C08 stitching: arrangements enumerated by TLC (spec/MC_Stitch.tla), replayed on harness-written archives
+
+C08_PATHS = {"Paths3": ["/a", "/b", "/a/b"], "Paths4": ["/a", "/ab", "/b", "/a/b"]}
+
+
+def c08_entry(path, band, hunk):
+    return {"p": cvlib.comps(path), "k": "File", "mt": [1000 + band, hunk], "mode": 420, "u": "", "g": "", "a": [], "t": []}
+
+
+def c08_scenario(sid_, lay, paths, ids, tags):
+    bands = []
+    for slot, bs in enumerate(lay):
+        if bs["st"] == "absent":
+            continue
+        b = ids[slot]
+        hunks = [{"n": bs["off"] + j, "es": [c08_entry(paths[i - 1], b, bs["off"] + j) for i in h]} for j, h in enumerate(bs["hunks"])]
+        bands.append({"id": b, "head": bs["st"] != "nohead", "tail": bs["st"] == "complete", "hunks": hunks})
+    steps = [{"op": "layout", "bands": bands, "blocks": []}]
+    for bd in bands:
+        if not bd["head"]:
+            continue
+        steps.append({"op": "list", "band": bd["id"]})
+        if not bd["tail"]:
+            # filters on every incomplete version: each directory-like path, a missing path, an exclusion per path
+            for sub in ["/a", "/zz"]:
+                steps.append({"op": "list", "band": bd["id"], "subtree": sub})
+            for ex in ["/a", "b", "/b"]:
+                steps.append({"op": "list", "band": bd["id"], "excl": [ex]})
+    return {"id": sid_, "props": ["C08"], "mode": "clean", "no_create": True, "tags": tags, "steps": steps}
+
+
+def parse_cases(out):
+    cases = []
+    for line in out.splitlines():
+        if line.startswith('<<"CASE", "'):
+            body = line[len('<<"CASE", '):-2]
+            cases.append(json.loads(json.loads(body)))
+    return cases
+
+
+@check("C08", "model_checking", "TLA+ spec: StitchOf proved equal to a declarative statement of the rule by TLC over all bounded arrangements; every arrangement replayed on harness-written archives and the real listing compared with StitchOf by TLC")
+def gen_c08(tier, seed):
+    rng = random.Random(seed * 1000 + 8)
+    scens = []
+    mcs = []
+    r = cvlib.run_tlc_model("MC_Stitch.tla", "MC_Stitch_emit.cfg", timeout=900)
+    mcs.append(("MC_Stitch.tla", "MC_Stitch_emit.cfg", r))
+    if not r["ok"]:
+        return scens, mcs
+    cases = parse_cases(r["out"])
+    total = len(cases)
+    if tier == "quick":
+        # all arrangements are checked by TLC; a seeded sample is executed (thorough executes all)
+        interesting = [c for c in cases if sum(1 for b in c if b["st"] == "incomplete" and b["hunks"]) >= 1]
+        cases = rng.sample(interesting, min(2500, len(interesting))) + rng.sample(cases, min(500, len(cases)))
+    for i, lay in enumerate(cases):
+        scens.append(c08_scenario(sid("C08", "l3", i), lay, C08_PATHS["Paths3"], [0, 1, 3], ["tlc-arrangement"]))
+    r2 = cvlib.run_tlc_model("MC_Stitch.tla", "MC_Stitch_off.cfg", timeout=900)
+    mcs.append(("MC_Stitch.tla", "MC_Stitch_off.cfg", r2))
+    if r2["ok"]:
+        cases2 = parse_cases(r2["out"])
+        total += len(cases2)
+        if tier == "quick":
+            cases2 = rng.sample(cases2, min(600, len(cases2)))
+        for i, lay in enumerate(cases2):
+            scens.append(c08_scenario(sid("C08", "off", i), lay, C08_PATHS["Paths3"], [0, 2], ["tlc-arrangement", "hunk-gap"]))
+    if tier != "quick":
+        r3 = cvlib.run_tlc_model("MC_Stitch.tla", "MC_Stitch_thorough.cfg", timeout=3000)
+        mcs.append(("MC_Stitch.tla", "MC_Stitch_thorough.cfg", r3))
+    # random larger arrangements (up to 6 bands, up to ~12 paths)
+    names = ["a", "ab", "b", "a.b", "é", "-", "z", "0"]
+    universe = ["/" + n for n in names] + ["/a/" + n for n in names[:4]] + ["/a/b/" + n for n in names[:3]] + ["/é/x", "/z/a"]
+    key = lambda p: ([c.encode() for c in p.strip("/").split("/")][:-1], p.strip("/").split("/")[-1].encode())
+    universe.sort(key=key)
+    n = 150 if tier == "quick" else 3000
+    for i in range(n):
+        ids = sorted(rng.sample(range(0, 9), rng.randrange(2, 7)))
+        lay = []
+        for _ in ids:
+            st = rng.choice(["incomplete", "incomplete", "complete", "nohead", "incomplete"])
+            sel = [j + 1 for j in range(len(universe)) if rng.random() < 0.45]
+            if st == "incomplete" and rng.random() < 0.7:
+                sel = sel[:rng.randrange(0, len(sel) + 1)]
+            hunks = []
+            while sel:
+                k = rng.randrange(1, 4)
+                hunks.append(sel[:k])
+                sel = sel[k:]
+            lay.append({"st": st, "hunks": hunks if st != "nohead" else [], "off": rng.choice([0, 0, 0, 1])})
+        s = c08_scenario(sid("C08", "rnd", i), lay, universe, ids, ["random-arrangement"])
+        # richer filters for the random ones
+        for bd in s["steps"][0]["bands"]:
+            if bd["head"] and not bd["tail"]:
+                s["steps"].append({"op": "list", "band": bd["id"], "subtree": rng.choice(["/a", "/a/b", "/é", "/z"])})
+                s["steps"].append({"op": "list", "band": bd["id"], "excl": [rng.choice(["a", "/a/b", "*b", "z", "é"])]})
+        scens.append(s)
+    return scens, mcs
+
+
 def has_op(s, name):
     return any(st.get("op") == name for st in s["steps"])
 
@@ -379,6 +479,8 @@ NONTRIVIAL = {
     "C03": (lambda s: has_op(s, "sweep"), "distinct scenarios with a crash-point sweep (each sweep enumerates the storage verbs of the real run; counted per scenario, injected runs are reported as injections)"),
     "C04": (lambda s: has_op(s, "sweep") or any(st.get("fail_p") for st in s["steps"]), "distinct scenarios with at least one injected storage fault plan"),
     "C05": (lambda s: has_op(s, "delete") or has_op(s, "sweep"), "distinct histories ending in a delete/gc (dry, real, crash sweep or failing-read sweep)"),
+    "C08": (lambda s: sum(1 for b in s["steps"][0]["bands"] if b["head"] and not b["tail"]) >= 1 and len(s["steps"][0]["bands"]) >= 2,
+            "distinct arrangements with at least two band directories of which at least one is an incomplete version (stitching happens)"),
     "C13": (lambda s: has_op(s, "backup"), "distinct histories with at least one backup"),
     "C14": (lambda s: sum(1 for st in s["steps"] if st["op"] in ("backup", "sweep")) >= 2, "distinct scenarios with a second backup over existing data"),
 }
@@ -425,9 +527,18 @@ MODELS = {}
 
 def run_check(prop, tier, seed, t0, keep=False):
     spec = CHECKS[prop]
-    scens = spec["gen"](tier, seed)
-    by_id = {s["id"]: s for s in scens}
+    gen_out = spec["gen"](tier, seed)
     mc = []
+    if isinstance(gen_out, tuple):
+        scens, mc = gen_out
+        for (module, cfg, r) in mc:
+            if not r["ok"]:
+                print(r["out"][-3000:])
+                raise cvlib.ToolError(f"model config {cfg} did not pass: the specification itself violates a theorem or timed out")
+            print(f"[check {prop}] model {cfg}: {r['states']} distinct states, {r['transitions']} generated, {r['wall']:.0f}s")
+    else:
+        scens = gen_out
+    by_id = {s["id"]: s for s in scens}
     for (module, cfg, tmo) in MODELS.get(prop, {}).get(tier, []):
         r = cvlib.run_tlc_model(module, cfg, timeout=tmo)
         mc.append((module, cfg, r))
